@@ -6,6 +6,7 @@ import Noodles.Fasta.DriverC11
 import Noodles.Bgzf.Driver
 import Noodles.Bgzf.DriverC02
 import Noodles.Bgzf.DriverC03
+import Noodles.Bgzf.DriverC03Trunc
 import Noodles.Cram.DriverC19
 import Noodles.Bcf.DriverC10
 import Noodles.Bcf.DriverC10Record
@@ -37,7 +38,7 @@ def dispatch (line : String) : String :=
   | "c04" :: rest => Csi.handleC04 rest
   | "c01" :: rest => Bgzf.handleC01 rest
   | "c02" :: rest => Bgzf.RM.handleC02 rest
-  | "c03" :: rest => MtModel.handleC03 rest
+  | "c03" :: rest => (MtTrunc.handle? rest).getD (MtModel.handleC03 rest)
   | "c11" :: rest => Fasta.handleC11 rest
   | "c19" :: rest => Cram.Index.handleC19 rest
   | "c10" :: rest => Bcf.handleC10X rest
